@@ -2,6 +2,7 @@ package version
 
 import (
 	"errors"
+	"io"
 	"os"
 	"path/filepath"
 	"sort"
@@ -20,6 +21,10 @@ type verifFS struct {
 	files   map[string][]byte
 	ops     int
 	crashAt int
+	// tornAt >= 0: the process dies INSIDE the write operation number crashAt (a multi-page write can be
+	// cut short by a fatal signal): only the first tornAt bytes of that write reach the file
+	tornAt  int
+	tornLen int // length of the write that was cut (0: no write was cut)
 }
 
 var verifFSys *verifFS
@@ -57,6 +62,14 @@ func (w *verifEntryWriter) Sync() error {
 	}
 	if w.fs.step() {
 		w.fs.files[w.name] = append(w.fs.files[w.name], w.pending...)
+	} else if w.fs.tornAt >= 0 && w.fs.ops == w.fs.crashAt {
+		k := w.fs.tornAt
+		if k > len(w.pending) {
+			k = len(w.pending)
+		}
+		w.fs.files[w.name] = append(w.fs.files[w.name], w.pending[:k]...)
+		w.fs.tornAt = -1
+		w.fs.tornLen = len(w.pending)
 	}
 	w.pending = nil
 	return nil
@@ -74,6 +87,8 @@ type verifEntryReader struct {
 }
 
 func (r *verifEntryReader) Next() bool {
+	// mirrors bufioEntryReader.Next (contract: verifC01Framing in pkg/bufioutil): clean EOF at a record
+	// boundary or right behind a length prefix, unexpected EOF inside a prefix or inside the content
 	if r.pos >= len(r.data) {
 		return false
 	}
@@ -81,7 +96,7 @@ func (r *verifEntryReader) Next() bool {
 	var shift uint
 	for {
 		if r.pos >= len(r.data) {
-			r.err = errors.New("truncated record length")
+			r.err = io.ErrUnexpectedEOF
 			return true
 		}
 		b := r.data[r.pos]
@@ -92,8 +107,12 @@ func (r *verifEntryReader) Next() bool {
 		}
 		shift += 7
 	}
+	if n > 0 && r.pos >= len(r.data) {
+		return false
+	}
 	if r.pos+int(n) > len(r.data) {
-		r.err = errors.New("truncated record")
+		r.err = io.ErrUnexpectedEOF
+		r.pos = len(r.data)
 		return true
 	}
 	r.rec = r.data[r.pos : r.pos+int(n)]
@@ -112,7 +131,7 @@ func verifStubExist(name string) bool {
 }
 
 func verifInstallFS() *verifFS {
-	fs := &verifFS{files: map[string][]byte{}, crashAt: -1}
+	fs := &verifFS{files: map[string][]byte{}, crashAt: -1, tornAt: -1}
 	verifFSys = fs
 	writeFileFunc = func(name string, data []byte, _ os.FileMode) error {
 		if fs.step() {
@@ -375,4 +394,97 @@ func verifC01Reach() {
 	fsz := len(snap.GetCurrent().GetAllFiles())
 	verifObserve("recover", min, fsz, fs.ops)
 	verifAssert(min != 9, "reach")
+}
+
+// C01, half-written metadata record: the process dies INSIDE the write that appends a commit's
+// records to the manifest (or inside the write of the snapshot a recovery puts into its new
+// manifest), so that any prefix of the written bytes is in the file. Reopening must succeed, show the
+// state before the commit in flight (or after it, when every byte arrived), keep file numbers
+// unique, and a further commit + reopen must work.
+func verifC01TornCommit() {
+	dir := verifStoreDir()
+	fs := verifInstallFS()
+	vs, _, err := verifOpen(dir)
+	verifAssert(err == nil, "a fresh store opens")
+	state := verifState{}
+	flush := func(torn, symbolic bool) (verifState, error) {
+		n := vs.NextFileNumber()
+		el := NewEditLog(1)
+		rec := verifFileRec{0, n, 3, 1 << 30, 77}
+		seq := int64(300)
+		if symbolic {
+			verifClass = verifChoose("magnitudeClass", 2)
+			rec = verifFileRec{0, n, verifSmallOrLarge("minKey"), verifSmallOrLarge("maxKey"), verifSmallOrLarge("size")}
+			seq = verifRange("sequence", 0, 1<<40)
+		}
+		el.Add(CreateNewFile(0, NewFileMeta(n, rec.min, rec.max, rec.size)))
+		el.Add(CreateSequence(1, seq))
+		after := state.clone()
+		after.files = append(after.files, rec)
+		after.seq, after.hasSeq = seq, true
+		if torn {
+			fs.crashAt = fs.ops
+			fs.tornAt = verifChoose("tornAtByte", 72)
+		}
+		return after, vs.CommitFamilyEditLog("f", el)
+	}
+	// one commit that completes
+	after, err := flush(false, false)
+	verifAssert(err == nil, "commit returns")
+	state = after
+	before := state.clone()
+	where := verifChoose("tornWhere", 2)
+	complete := false
+	if where == 0 {
+		// the commit in flight is cut
+		after, _ = flush(true, true)
+		verifAssume(fs.tornLen > 0 && fs.tornAt < 0)
+		fs.crashAt = -1
+	} else {
+		// the commit completes; the following recovery dies inside the write of its snapshot (the new
+		// manifest is not CURRENT yet), the recovery after that must cope with both manifests
+		after, err = flush(false, true)
+		verifAssert(err == nil, "commit returns")
+		before = after.clone()
+		fs.crashAt = fs.ops + 1
+		fs.tornAt = verifChoose("tornAtByte", 72)
+		_, _, _ = verifOpen(dir)
+		verifAssume(fs.tornLen > 0 && fs.tornAt < 0)
+		fs.crashAt = -1
+		complete = true
+	}
+	vs2, fv2, err := verifOpen(dir)
+	verifAssert(err == nil, "the store reopens after a write was cut short")
+	if err != nil {
+		return
+	}
+	okAfter := verifMatches(fv2, after)
+	okBefore := verifMatches(fv2, before)
+	if complete {
+		verifAssert(okAfter, "every commit that returned is visible after reopening")
+	} else {
+		verifAssert(okAfter || okBefore, "the commit in flight is visible entirely or not at all")
+	}
+	next := vs2.NextFileNumber()
+	snap := fv2.GetSnapshot()
+	for _, f := range snap.GetCurrent().GetAllFiles() {
+		verifAssert(next > f.GetFileNumber(), "a file number handed out after recovery is above every referenced file")
+	}
+	snap.Close()
+	// the recovered store accepts a further commit and shows it after one more reopen
+	cur := before
+	if okAfter {
+		cur = after
+	}
+	el := NewEditLog(1)
+	rec := verifFileRec{0, next, 5, 6, 7}
+	el.Add(CreateNewFile(0, NewFileMeta(next, rec.min, rec.max, rec.size)))
+	verifAssert(vs2.CommitFamilyEditLog("f", el) == nil, "commit after recovery returns")
+	cur.files = append(cur.files, rec)
+	_, fv3, err := verifOpen(dir)
+	verifAssert(err == nil, "the store reopens again")
+	if err == nil {
+		verifAssert(verifMatches(fv3, cur), "commit after recovery is visible")
+	}
+	verifReach("end")
 }
